@@ -190,7 +190,7 @@ def c05d(F, R):
     _triples(F, R, LINTERR, subj)
 
 
-@rule("C05", "C05.e.operand-search-cuts", floor=4)
+@rule("C05", "C05.e.operand-search-cuts", floor=3)
 def c05e(F, R):
     """the breadth-first searches that pick the reported operand (first store / first usage) cut a path only at an already visited node, at the node they were looking for, or - the forward search, after its use test - at a redefinition of the register"""
     from .g2 import real_breaks
@@ -256,7 +256,7 @@ def c05e(F, R):
             R.bad(f"{name}|cuts", f"{name}: expected the visited cut and the found cut, saw {n}", f["sp"])
 
 
-@rule("C05", "C05.i.no-arithmetic-write-escapes-the-zero-register-check", floor=4)
+@rule("C05", "C05.i.no-arithmetic-write-escapes-the-zero-register-check", floor=2)
 def c05i(F, R):
     """`can_skip_save_checks()` (which both the save-to-zero check and the dead-assignment check ask) exempts node kinds that write a register only as a side effect - entries, jumps that discard their link, CSR accesses - and never an instruction that computes a value: evaluated for every computing kind with rd = x0 and every combination of x0 / non-x0 sources and zero / non-zero immediate, it must answer false, or `li zero, 5` / `addi x0, x0, 1` is no longer reported"""
     from .nodeprops import eval_prop, Unx
